@@ -207,8 +207,12 @@ static void body(bsx::Ctx& c) {
 	int len = c.choose(Lmax + 1, "length");
 	Node* sn = nullptr;
 	if (arch == tl::Csv) sn = &shape.items[0]; else if (embed == 0) sn = &shape.items[pad ? 1 : 0]; else sn = &shape.fields[pad ? 1 : 0].second;
-	std::string hist, cls;
-	for (int i = 0; i < len; ++i) { int r = c.choose(static_cast<int>(al.size()), "request"); sn->script.push_back(al[static_cast<size_t>(r)]); hist += (i ? "," : "") + reqName(al[static_cast<size_t>(r)]); cls += (i ? "," : "") + reqClass(al[static_cast<size_t>(r)]); }
+	std::string hist, cls; int firstPartial = -1;
+	auto partialRead = [&](const Req& q) {   // a Get of an array that reads fewer elements than the document holds
+		if (q.kind != Req::Get || q.target.empty() || q.target[0].k != Arr || q.key.t != Key::S) return false;
+		for (auto& kv : scriptedDoc.m) if (kv.first.k == Val::Str && kv.first.s == q.key.s) return kv.second.k == Val::Arr && kv.second.a.size() > q.target[0].items.size();
+		return false; };
+	for (int i = 0; i < len; ++i) { int r = c.choose(static_cast<int>(al.size()), "request"); sn->script.push_back(al[static_cast<size_t>(r)]); if (firstPartial < 0 && partialRead(al[static_cast<size_t>(r)])) firstPartial = i; hist += (i ? "," : "") + reqName(al[static_cast<size_t>(r)]); cls += (i ? "," : "") + reqClass(al[static_cast<size_t>(r)]); }
 
 	std::string bytes = tl::emit(arch, root);
 	std::string cfg = std::string("C03/") + archName(arch) + (stream ? "/stream" : "/mem") + "/chunk=" + std::to_string(kChunk) + (embed ? "/in=object" : "/in=array") + "/doc=" + d.name;
@@ -223,10 +227,18 @@ static void body(bsx::Ctx& c) {
 	for (size_t i = 0; i < sn->script.size(); ++i) { c.transition(); uint64_t st = sn->script[i].stateAfter ? sn->script[i].stateAfter : gCfgSalt; c.state(st); if (static_cast<int>(i) + 1 < Lmax) c.aux(st); }
 	if (len >= 2) c.nontrivial(sigbase + std::to_string(pad));
 	if (len == 3 && di == 3 && srcSel == 1 && c.choices().back() == 1) c.sample(sigbase + " pad=" + std::to_string(pad) + " -> " + out.cls + " " + shape.dumpLoaded());
-	if (!out.ok()) { c.violation(sigbase + "/out=" + out.cls, "well-formed document, valid request history, but the load threw " + out.cls + ": " + out.what); return; }
+	// A complaint about something that happens after an array was opened and left partly read carries a cause tag (that is the
+	// listed finding: the rest of such an array is not skipped on close); a complaint about the partial read itself or about
+	// anything before it does not.
+	const std::string afterPartial = "/cause=after_partial_array_read";
+	if (!out.ok()) { c.violation(sigbase + (firstPartial >= 0 ? afterPartial : "") + "/out=" + out.cls, "well-formed document, valid request history, but the load threw " + out.cls + ": " + out.what); return; }
 	model::Checker ck{true, true};
 	ck.walk(&root, shape, "", true);
-	for (auto& m : ck.complaints) c.violation(sigbase + "/out=wrong_result", m + " | loaded=" + shape.dumpLoaded());
+	for (auto& m : ck.complaints) {
+		bool after = false;
+		if (firstPartial >= 0) { size_t h = m.find('#'); if (h == std::string::npos || h > 12) after = true; else after = atoi(m.c_str() + h + 1) > firstPartial; }
+		c.violation(sigbase + (after ? afterPartial : "") + "/out=wrong_result", m + " | loaded=" + shape.dumpLoaded());
+	}
 }
 
 int main(int argc, char** argv) {
